@@ -12,6 +12,7 @@ import (
 	"context"
 	"errors"
 	"fmt"
+	"math"
 	"math/rand"
 	"strings"
 	"sync"
@@ -34,6 +35,19 @@ type NodeCfg struct {
 	W     int // retry wait in ms
 	Start int // flows: id of the start node, 0 = nil
 	Gk    string
+	Big   int // > 0: the real budget is one of bigBudgets (N then holds a stand-in that fits the model checker's integers)
+}
+
+// retry budgets beyond 32 bits ("retry until it works"): the attempts a run can make never get near them
+var bigBudgets = []int{0, 1 << 31, 1 << 32, math.MaxInt, 1<<32 + 3}
+
+const bigStandIn = 2000000000
+
+func (n NodeCfg) real() NodeCfg {
+	if n.Big > 0 && n.Big < len(bigBudgets) {
+		n.N = bigBudgets[n.Big]
+	}
+	return n
 }
 
 type ConnOp struct{ Flow, From, Act, To int }
@@ -65,7 +79,7 @@ func parseEngineCfg(m map[string]any) EngineCfg {
 	for _, nv := range asList(m["nodes"]) {
 		n := asMap(nv)
 		nc := NodeCfg{Kind: asStr(n["kind"]), Retry: asBool(n["retry"]), Fb: asBool(n["fb"]), Func: asBool(n["func"]),
-			N: asInt(n["N"]), W: asInt(n["w"]), Start: asInt(n["start"]), Gk: asStr(n["gk"])}
+			N: asInt(n["N"]), W: asInt(n["w"]), Start: asInt(n["start"]), Gk: asStr(n["gk"]), Big: asInt(n["big"])}
 		for _, s := range asList(n["sty"]) {
 			nc.Sty = append(nc.Sty, asStr(s))
 		}
@@ -119,7 +133,7 @@ func (c EngineCfg) toJSON() map[string]any {
 			sty = append(sty, s)
 		}
 		nodes = append(nodes, map[string]any{"kind": n.Kind, "retry": n.Retry, "fb": n.Fb, "func": n.Func, "sty": sty,
-			"N": n.N, "w": n.W, "start": n.Start, "gk": n.Gk})
+			"N": n.N, "w": n.W, "start": n.Start, "gk": n.Gk, "big": n.Big})
 	}
 	conns := []any{}
 	for _, ops := range c.Conns {
@@ -195,7 +209,8 @@ func goKinds(n NodeCfg) []string {
 }
 
 // actions: integer tokens <-> flyt.Action
-var actNames = map[int]flyt.Action{0: "", 1: flyt.DefaultAction, 2: "a", 3: "ab", 4: "b", 5: "abc", 6: "A", 7: " ", 8: "\n\t", 99: "exit"}
+var actNames = map[int]flyt.Action{0: "", 1: flyt.DefaultAction, 2: "a", 3: "ab", 4: "b", 5: "abc", 6: "A", 7: " ", 8: "\n\t",
+	9: "error", 10: "retry", 11: "fail", 99: "exit"} // (names that sound like outcomes are names like any other)
 
 func actName(a int) flyt.Action {
 	if s, ok := actNames[a]; ok {
@@ -357,6 +372,38 @@ type scnRun struct {
 	nestBad  string
 	pending  []ConnOp // Connect calls of this run that are still to be made from inside post callbacks
 	visitLog bool     // append node ids to a list in the store (C10 differential)
+	compact  *longFacts // a very long run: callback events are counted and checked as they come instead of being kept
+}
+
+// longFacts: what is kept of a run with tens of thousands of rounds of the same one-node body
+type longFacts struct {
+	Rounds, Preps, Execs, Posts, Fbs int
+	InOrder, Store             bool
+	next                       string
+}
+
+func (l *longFacts) absorb(e Event) bool {
+	ev, _ := e["ev"].(string)
+	switch ev {
+	case "prep":
+		l.Preps++
+	case "exec":
+		l.Execs++
+	case "post":
+		l.Posts++
+	case "fb":
+		l.Fbs++
+	default:
+		return false
+	}
+	if ev != l.next {
+		l.InOrder = false
+	}
+	l.next = map[string]string{"prep": "exec", "exec": "post", "post": "prep"}[ev]
+	if sok, has := e["sok"]; has && sok != true {
+		l.Store = false
+	}
+	return true
 }
 
 // ctxAlive: every context a callback of this run was given so far is still alive, unless the run's own context is
@@ -384,6 +431,10 @@ func (s *scnRun) ctxAlive(ctx context.Context) bool {
 
 func (s *scnRun) log(e Event) {
 	s.mu.Lock()
+	if s.compact != nil && s.compact.absorb(e) {
+		s.mu.Unlock()
+		return
+	}
 	s.events = append(s.events, e)
 	s.mu.Unlock()
 }
@@ -441,6 +492,59 @@ func (s *scnRun) runNested(ctx context.Context, id int) {
 	if err != nil || act != flyt.DefaultAction {
 		s.nestedBad("the nested run returned (%q, %v)", act, err)
 	}
+	// ... and a whole flow of its own (fresh nodes, a store of its own) run from inside the callback under the callback's
+	// context - the way a batch of sub-flows is written: its nodes work on ITS store
+	own := flyt.NewSharedStore()
+	var seen []string
+	mk := func(name string, next flyt.Action) flyt.Node {
+		return &innerNode{BaseNode: flyt.NewBaseNode(), name: name, next: next, own: own, outer: s.store, seen: &seen, bad: s.nestedBad}
+	}
+	a, b2, c := mk("a", "go"), mk("b", ""), mk("c", "end")
+	sub := flyt.NewFlow(b2)
+	sub.Connect(b2, flyt.DefaultAction, c)
+	fl := flyt.NewFlow(a)
+	fl.Connect(a, "go", sub)
+	act, err = flyt.Run(ctx, fl, own)
+	if err != nil || act != "end" || strings.Join(seen, "") != "abc" {
+		s.nestedBad("the flow run from inside the callback returned (%q, %v) after visiting %v", act, err, seen)
+	}
+	if v, ok := own.Get("inner"); !ok || v != "abc" {
+		s.nestedBad("the inner flow's store holds %v", v)
+	}
+	if s.store.Has("inner") {
+		s.nestedBad("the inner flow wrote to the outer run's store")
+	}
+}
+
+// a node of the flow that is run from inside a callback
+type innerNode struct {
+	*flyt.BaseNode
+	name  string
+	next  flyt.Action
+	own   *flyt.SharedStore
+	outer *flyt.SharedStore
+	seen  *[]string
+	bad   func(string, ...any)
+}
+
+func (n *innerNode) Prep(ctx context.Context, shared *flyt.SharedStore) (any, error) {
+	if shared != n.own {
+		n.bad("node %s of the inner flow was prepared with a store that is not the inner run's (the outer one: %v)", n.name, shared == n.outer)
+	}
+	return n.name, nil
+}
+func (n *innerNode) Exec(ctx context.Context, p any) (any, error) { return p, nil }
+func (n *innerNode) Post(ctx context.Context, shared *flyt.SharedStore, p, x any) (flyt.Action, error) {
+	if shared != n.own {
+		n.bad("node %s of the inner flow was post-processed with a store that is not the inner run's", n.name)
+	}
+	*n.seen = append(*n.seen, n.name)
+	if shared != nil {
+		cur, _ := shared.Get("inner")
+		cs, _ := cur.(string)
+		shared.Set("inner", cs+n.name)
+	}
+	return n.next, nil
 }
 
 func (c *leafCore) prep(ctx context.Context, shared *flyt.SharedStore) (any, error) {
@@ -838,6 +942,10 @@ func buildFuncNode(c *leafCore, nc NodeCfg, builderForm bool) flyt.Node {
 		if err != nil {
 			return flyt.Result{}, err
 		}
+		if v == nil && c.s.cfg.GenMode != "" && (c.id+c.s.cfg.Variant)%2 == 0 {
+			// a nil value handed over as an error Result (nothing could be loaded, say): its value is nil all the same
+			return flyt.NewErrorResult(errors.New("nothing to prepare")), nil
+		}
 		return flyt.NewResult(v), nil
 	}
 	prepA := func(ctx context.Context, shared *flyt.SharedStore) (any, error) { return c.prep(ctx, shared) }
@@ -920,7 +1028,7 @@ func buildFuncNode(c *leafCore, nc NodeCfg, builderForm bool) flyt.Node {
 }
 
 func (s *scnRun) buildLeaf(id int) flyt.Node {
-	nc := s.cfg.Nodes[id-1]
+	nc := s.cfg.Nodes[id-1].real()
 	c := &leafCore{s: s, id: id}
 	wait := time.Duration(nc.W) * time.Millisecond
 	switch nc.Gk {
@@ -1131,9 +1239,16 @@ func runEngineScenarioFull(cfg EngineCfg, script Script, viaFlowRun bool, nest *
 	if cfg.GenMode == "longloop" {
 		s.maxCb = 20000 // a legitimately long run
 	}
+	if cfg.GenMode == "hugeloop" {
+		var rounds int
+		fmt.Sscanf(cfg.GenSeed, "%d", &rounds)
+		s.maxCb = 4*rounds + 100
+		s.compact = &longFacts{Rounds: rounds, InOrder: true, Store: true, next: "prep"}
+	}
 	for id := range cfg.Nodes {
 		s.node(id+1, 0)
 	}
+	var later []func()
 	for r := 1; r <= cfg.Runs; r++ {
 		s.run = r
 		s.visits = map[int]int{}
@@ -1213,6 +1328,11 @@ func runEngineScenarioFull(cfg EngineCfg, script Script, viaFlowRun bool, nest *
 				return evs, s
 			}
 		}
+		if s.compact != nil {
+			l := s.compact
+			s.log(Event{"ev": "longrun", "rounds": l.Rounds, "preps": l.Preps, "execs": l.Execs, "posts": l.Posts, "fbs": l.Fbs,
+				"inorder": l.InOrder, "sok": l.Store})
+		}
 		if !panicked {
 			errs := []any{}
 			for _, t := range s.reg.MatchAll(err) {
@@ -1220,7 +1340,16 @@ func runEngineScenarioFull(cfg EngineCfg, script Script, viaFlowRun bool, nest *
 			}
 			s.log(Event{"ev": "runret", "act": actTok(action), "iserr": err != nil, "errs": errs, "ctxerr": isCtxErr(err, ctx)})
 		}
-		s.cancel()
+		if cfg.Variant%2 == 1 && r < cfg.Runs {
+			// the context of a finished run stays alive while the same objects run again (a server's base context): what a
+			// later run observes is ITS context, not one an earlier run happened to leave behind
+			later = append(later, s.cancel)
+		} else {
+			s.cancel()
+		}
+	}
+	for _, c := range later {
+		c()
 	}
 	return s.events, s
 }
